@@ -86,6 +86,12 @@ struct Buf {
 // Run-level epilogue shared by all worlds: leaks, canaries, bad returns, unexpected error callbacks.
 void monitors_epilogue(Result &r, int64_t expected_illegal, int64_t expected_error);
 
+// header-derived (written by the driver from /repo/include at check time): does the documentation of `api` say
+// "(not secp256k1_context_static)"?  Unknown names count as not documented.
+bool documented_not_static(const char *api);
+// the context a careful-but-frugal caller would use for `api`: the static one whenever the header allows it
+inline const secp256k1_context *frugal_ctx(bool want_static, const secp256k1_context *full, const char *api) { return (want_static && !documented_not_static(api)) ? secp256k1_context_static : full; }
+
 // independent SHA-256 compression function (the model's) for the compression seam
 extern "C" void sim_model_compression(uint32_t *state, const unsigned char *blocks, size_t n);
 
